@@ -142,6 +142,13 @@ def run_case(ctx, case):
         job.document["nested"] = {"v": [k, "é"]}
         sig.write_file(job.fn("data.txt"), f"data-{k}")
         sig.write_file(job.fn("sub/deep/x.bin"), bytes([k % 250]) * 33)
+        if k % 2 == 0:
+            # data that itself looks like a signac job (e.g. a nested project kept inside the job): it belongs to
+            # this job and must neither be imported as a job of its own nor confuse the importer
+            sig.write_file(job.fn("analysis/workspace/inner/signac_statepoint.json"), '{"inner": %d}' % k)
+            sig.write_file(job.fn("analysis/workspace/inner/result.txt"), "inner-result")
+        if k % 3 == 0:
+            sig.write_file(job.fn("nested_sp/signac_statepoint.json"), '{"inner1": %d}' % k)
     want = project_content(src.path)
     base = ctx.scratch("exp")
     tmp = os.path.join(base, "tmp")
@@ -197,10 +204,10 @@ def run_case(ctx, case):
                     m = _re.search(path.replace(os.sep, "/"))
                     return {"a": int(m.group(1))} if m else None
             if case["strip_sp_files"] and case["target"] == "dir":
-                for dp, _dn, fns in os.walk(target):
-                    for fn in fns:
-                        if fn == model.SP_FILE:
-                            os.remove(os.path.join(dp, fn))
+                for rel in mapping.values():  # only the jobs' own state point files, not payload that looks like one
+                    fn = os.path.join(target, rel, model.SP_FILE)
+                    if os.path.exists(fn):
+                        os.remove(fn)
         pre_id = None
         if case["mode"] == "existing" and sps:
             pre = dst.open_job(copy.deepcopy(sps[0])).init()
